@@ -54,7 +54,7 @@ func flushDepths(header []string) []int {
 	var out []int
 	n := len(header) // levels = n (base + layers); top depth 0 = last layer
 	for i, l := range header {
-		if i > 0 && l == "f" {
+		if i > 0 && (l == "f" || l == "z") {
 			out = append(out, n-1-i)
 		}
 	}
@@ -84,7 +84,7 @@ func Gen(r *rand.Rand, c GenCfg) []string {
 		return pool[r.Intn(len(pool))]
 	}
 	val := func() string {
-		if c.BigValues && r.Intn(12) == 0 {
+		if c.BigValues && r.Intn(4) == 0 {
 			return "*" + strconv.Itoa(40000+r.Intn(30000)) + "*" + Alphabet[r.Intn(len(Alphabet))]
 		}
 		return values[r.Intn(len(values))]
